@@ -58,6 +58,7 @@ import (
 	"encoding/binary"
 	"fmt"
 	"io"
+	"math"
 	"sync"
 
 	"github.com/RoaringBitmap/roaring"
@@ -147,7 +148,7 @@ func (idx *RoaringMetadataIndex) Add(node MetadataNode) error {
 			idx.addNumeric(key, docID, v)
 		case float64:
 			// Convert float to int by multiplying by 100 (for 2 decimal precision)
-			idx.addNumeric(key, docID, int64(v*100))
+			idx.addNumeric(key, docID, int64(math.Round(v*100)))
 		case string:
 			idx.addCategorical(key, v, docID)
 		case bool:
@@ -421,7 +422,7 @@ func toInt64(value interface{}) (int64, error) {
 		return v, nil
 	case float64:
 		// Convert float to int by multiplying by 100 (for 2 decimal precision)
-		return int64(v * 100), nil
+		return int64(math.Round(v * 100)), nil
 	default:
 		return 0, fmt.Errorf("cannot convert %T to int64", value)
 	}
